@@ -389,6 +389,7 @@ class _IterBase(_StreamBase):
 @R.contract
 class StreamIterNext(_IterBase):
     name = "Pyro5.client._StreamResultIterator.__next__"
+    never_returns = ("ended", "closed-connection")        # these variants are the raising cases by construction
     raises = {"builtins.BaseException": "x_any"}
     raises_any_subclass = ("builtins.BaseException",)
 
